@@ -4,7 +4,15 @@ import GridVerif.Model.Bisect
 import GridVerif.Model.AtomGrid
 import GridVerif.Gen.AngularTables
 import GridVerif.Gen.Presets
+import GridVerif.Gen.AtomGrid
 
+/-
+  Driver of C05 (line protocol, see harness/props/c05.py).
+  `C05.ginit` / `C05.gpruned` / `C05.gcheck` run the definitions regenerated from atomgrid.py
+  (`Gen/AtomGrid.lean`) on Python-level arguments; `C05.sectors` / `C05.pruned` run the regenerated
+  lookup *and* the hand model and answer `gen-model-mismatch` should they differ; `C05.build` is the
+  hand-model constructor (kept; the harness uses `C05.ginit`).
+-/
 namespace GridVerif.Driver.C05
 open GridVerif.Proto GridVerif.AtomGrid GridVerif.Bisect GridVerif.Gen.Presets GridVerif.Gen.Angular
 
@@ -83,7 +91,126 @@ def sRequest : Request → String
 def findEntry (p : Preset) (z : Nat) : Option Entry :=
   entries.find? fun e => e.preset == p && e.atnum == z
 
+
+/-! ### Python-level arguments of the generated definitions (`Gen/AtomGrid.lean`) -/
+
+/-- `none` | `other` | `seq <vec>` -/
+def pSeqArg : List String → Option (SeqArg × List String)
+  | "none" :: rest => some (.none, rest)
+  | "other" :: rest => some (.other, rest)
+  | "seq" :: rest => do
+    let (xs, rest) ← pVec pNat rest
+    pure (.seq xs, rest)
+  | _ => none
+
+/-- `none` | `seq <vec>` -/
+def pOptNats : List String → Option (Option (List Nat) × List String)
+  | "none" :: rest => some (none, rest)
+  | "seq" :: rest => do
+    let (xs, rest) ← pVec pNat rest
+    pure (some xs, rest)
+  | _ => none
+
+/-- `int n` | `npint n` | `bool 0|1` | `other` -/
+def pRotArg : List String → Option (RotArg × List String)
+  | "int" :: n :: rest => do pure (.int (← pInt n), rest)
+  | "npint" :: n :: rest => do pure (.npInt (← pInt n), rest)
+  | "bool" :: "0" :: rest => some (.bool false, rest)
+  | "bool" :: "1" :: rest => some (.bool true, rest)
+  | "other" :: rest => some (.other, rest)
+  | _ => none
+
+/-- `none` | `vec <vec>` -/
+def pCenter : List String → Option (Option (List Float) × List String)
+  | "none" :: rest => some (none, rest)
+  | "vec" :: rest => do
+    let (xs, rest) ← pVec pFloat rest
+    pure (some xs, rest)
+  | _ => none
+
+/-- `<isOneDGrid 0|1> (nodom | dom a b) <points vec> <weights vec>` -/
+def pRGrid : List String → Option (RGrid Float × List String)
+  | o :: rest => do
+    let isO ← match o with | "1" => some true | "0" => some false | _ => none
+    let (dom, rest) ← (match rest with
+      | "nodom" :: r => some (none, r)
+      | "dom" :: a :: b :: r => do pure (some (← pFloat a, ← pFloat b), r)
+      | _ => none : Option (Option (Float × Float) × List String))
+    let (ps, rest) ← pVec pFloat rest
+    let (ws, rest) ← pVec pFloat rest
+    if ps.length ≠ ws.length then none else
+    pure (⟨isO, dom, ps, ws⟩, rest)
+  | _ => none
+
+/-- the angular data, the matrices and the shell-grid requests that follow the arguments -/
+def pWorld (dg np : List (Nat × Nat)) (rest : List String) :
+    Option (Env Float × List (Nat × M3 Float) × List (Int × Bool)) := do
+  let k :: rest := rest | none
+  let (ang, rest) ← pAngular (← pNat k) rest
+  let k :: rest := rest | none
+  let (mats, rest) ← pMats (← pNat k) rest
+  let k :: rest := rest | none
+  let (sgs, rest) ← pPairsIntBool (← pNat k) rest
+  if rest ≠ [] then none else
+  let env : Env Float := {
+    degreesTbl := dg, npointsTbl := np,
+    load := fun d => (ang.find? fun q => q.1 == d).map fun q => q.2,
+    rotation := fun s => ((mats.find? fun q => q.1 == s).map (·.2)).getD zeroM }
+  pure (env, mats, sgs)
+
+/-- print a built grid (and the requested shell grids); every seed the model asks for must have
+been supplied: the default matrix is never used (matrices do not influence which exception is
+raised, so errors are answered before) -/
+def sGrid (env : Env Float) (mats : List (Nat × M3 Float)) (sgs : List (Int × Bool))
+    (r : Except Err (Grid Float)) : Option String :=
+  match r with
+  | .error e => errTag e
+  | .ok g =>
+    let n := g.rgrid.length
+    let need := (if rotates g.rotate then (List.range n).map (shellSeed g.rotate) else []) ++
+      (if shellGridRotates g.rotate then
+        sgs.filterMap fun (i, _) => if 0 ≤ i ∧ i < n then some (shellGridSeed g.rotate i.toNat) else none
+       else [])
+    if need.any fun s => (mats.find? fun q => q.1 == s).isNone then none else do
+    let sg ← sgs.mapM fun (i, b) =>
+      match getShellGrid env g i b with
+      | .ok (p, w) => some s!"sg-ok {sV3s p} {sFloats w}"
+      | .error e => (errTag e).map ("sg-" ++ ·)
+    pure (String.intercalate " "
+      (["ok", sNats g.indices, sNats g.degrees, toString g.size, sV3s g.points, sFloats g.weights] ++ sg))
+
 def handle : List String → Option String
+  | "C05.ginit" :: m :: rest => do
+    -- the regenerated constructor: degrees sizes center rotate rgrid, then the world
+    let (dg, np) ← tablesOf m
+    let (degrees, rest) ← pSeqArg rest
+    let (sizes, rest) ← pSeqArg rest
+    let (center, rest) ← pCenter rest
+    let (rotate, rest) ← pRotArg rest
+    let (rg, rest) ← pRGrid rest
+    let (env, mats, sgs) ← pWorld dg np rest
+    sGrid env mats sgs (Gen.AtomGrid.init env rg degrees sizes center rotate)
+  | "C05.gpruned" :: m :: rest => do
+    -- the regenerated from_pruned: d_sectors s_sectors radius r_sectors center rotate rgrid, then the world
+    let (dg, np) ← tablesOf m
+    let (dsec, rest) ← pOptNats rest
+    let (ssec, rest) ← pOptNats rest
+    let r :: rest := rest | none
+    let radius ← pFloat r
+    let (rsect, rest) ← pVec pFloat rest
+    let (center, rest) ← pCenter rest
+    let (rotate, rest) ← pRotArg rest
+    let (rg, rest) ← pRGrid rest
+    let (env, mats, sgs) ← pWorld dg np rest
+    sGrid env mats sgs (Gen.AtomGrid.from_pruned env rg radius rsect dsec ssec center rotate)
+  | "C05.gcheck" :: rest => do
+    -- the regenerated _input_type_check
+    let (rg, rest) ← pRGrid rest
+    let (c, rest) ← pVec pFloat rest
+    if rest ≠ [] then none else
+    match Gen.AtomGrid.input_type_check rg c with
+    | .ok _ => pure "ok"
+    | .error e => errTag e
   | "C05.build" :: m :: kind :: rest => do
     let (dg, np) ← tablesOf m
     let (reqs, rest) ← pVec pNat rest
@@ -126,9 +253,13 @@ def handle : List String → Option String
     let (bs, rest) ← pVec pFloat rest
     let (ds, rest) ← pVec pNat rest
     if rest ≠ [] then none else
-    match findDegreesForRadialPoints rp bs ds with
-    | .ok v => pure ("ok " ++ sNats v)
-    | .error e => errTag e
+    -- the regenerated lookup and the hand model must agree (the theorem says so; checked here on floats)
+    let a := Gen.AtomGrid.find_degrees_for_radial_points rp bs ds
+    let b := findDegreesForRadialPoints rp bs ds
+    let show1 : Except Err (List Nat) → Option String := fun r => match r with
+      | .ok v => some ("ok " ++ sNats v)
+      | .error e => errTag e
+    if show1 a != show1 b then pure "gen-model-mismatch" else show1 a
   | "C05.pruned" :: m :: kind :: rest => do
     let (dg, np) ← tablesOf m
     let (sect, rest) ← pVec pNat rest
@@ -138,9 +269,19 @@ def handle : List String → Option String
     let (rsect, rest) ← pVec pFloat rest
     let (rp, rest) ← pVec pFloat rest
     if rest ≠ [] then none else
-    match generateDegreeFromRadius dg np rp radius rsect req with
-    | .ok v => pure ("ok " ++ sNats v)
-    | .error e => errTag e
+    let env : Env Float := { degreesTbl := dg, npointsTbl := np, load := fun _ => none, rotation := fun _ => zeroM }
+    let rg : RGrid Float := ⟨true, none, rp, rp⟩
+    -- regenerated `_generate_degree_from_radius` (sizes converted first, as `from_pruned` does)
+    let a : Except Err (List Nat) := match req with
+      | .degrees ds => Gen.AtomGrid.generate_degree_from_radius env rg radius rsect (some ds)
+      | .sizes ss => match convertAngularSizesToDegrees env ss with
+        | .ok ds => Gen.AtomGrid.generate_degree_from_radius env rg radius rsect (some ds)
+        | .error e => .error e
+    let b := generateDegreeFromRadius dg np rp radius rsect req
+    let show1 : Except Err (List Nat) → Option String := fun r => match r with
+      | .ok v => some ("ok " ++ sNats v)
+      | .error e => errTag e
+    if show1 a != show1 b then pure "gen-model-mismatch" else show1 a
   | "C05.preset" :: p :: z :: m :: rest => do
     let p ← Preset.ofName? p
     let z ← pNat z
